@@ -5,6 +5,8 @@
 # neither /repo nor /verif is disturbed. `-` = no patch (sanity run on the unchanged tree).
 set -e
 patch=$1; shift
+# one mutation experiment at a time (the private copies are shared)
+exec 9>/work/.mutcheck.lock; flock 9
 M=/work/mut
 mkdir -p $M
 if [ ! -d $M/repo ]; then git -C /repo worktree add -f --detach $M/repo HEAD >/dev/null 2>&1; fi
